@@ -57,6 +57,9 @@ type Step struct {
 	LockFirst bool
 	// faults armed for this call
 	Faults []FaultSpec
+	// commit: keep the fault plan armed until the client's background work of this call has drained
+	// (crash points in the asynchronous part of Commit)
+	DrainArmed bool
 	// advance
 	Ms int64
 }
@@ -112,7 +115,9 @@ type World struct {
 	Log      []string
 	depth    int
 	ReadErrs int
-	Fail     func(format string, a ...any) // harness-level assertion failure (own-write reads etc.)
+	// number of traced RPCs the last DrainArmed commit issued (synchronous + background)
+	LastCallRPCs int
+	Fail         func(format string, a ...any) // harness-level assertion failure (own-write reads etc.)
 }
 
 // NewWorld creates a world.
@@ -428,14 +433,20 @@ func (w *World) Exec(s *Step) {
 		t.CommitStep[1] = w.StepNo
 		t.Ended = "commit"
 		t.CommitClass = ClassifyCommitErr(err)
+		t.Told = !c.Net.Dead() // the caller learns Commit's answer only if the process is still alive when it returns
 		if err != nil {
 			t.CommitErr = err.Error()
 			w.Log = append(w.Log, fmt.Sprintf("  commit -> %s: %.160s", t.CommitClass, err.Error()))
 		} else {
 			t.CommitTS = txn.CommitTS()
 		}
+		if s.DrainArmed {
+			w.Cl.Drain(2*time.Millisecond, 3*time.Second)
+			_, w.LastCallRPCs = c.Net.Counts()
+		}
 		if c.Net.Dead() {
 			t.Ended = "killed"
+			w.Log = append(w.Log, fmt.Sprintf("  client %d died (told=%v)", c.ID, t.Told))
 		}
 	case "rollback":
 		_ = txn.Rollback()
